@@ -309,6 +309,19 @@ def builtin_call(ex, ev: Eval, node, fname):
     if fname == "abs":
         v = ev.expr(a[0])
         return V(v.t, z3.If(v.z >= 0, v.z, -v.z))
+    if fname == "enumerate" and len(a) == 1:
+        xs = ev.expr(a[0])
+        if isinstance(xs.t, TList):
+            et = TTuple([INT, xs.t.elem])
+            r = ex.new_sym(TList(et), "enumerated", ev.st)
+            j = z3.Int("j!enum")
+            acc = sort_of(et)
+            ev.st.pc.append(list_len(r) == list_len(xs))
+            ev.st.pc.append(z3.ForAll([j], z3.Implies(z3.And(0 <= j, j < list_len(xs)),
+                                                      z3.Select(list_arr(r), j) == acc.constructor(0)(j, z3.Select(list_arr(xs), j))),
+                                      patterns=[z3.Select(list_arr(r), j)]))
+            return r
+        raise Unsupported("enumerate over " + str(xs.t))
     if fname == "tuple" and len(a) == 1:
         v = ev.expr(a[0])
         if isinstance(v.t, TList):
@@ -571,7 +584,7 @@ def method_call(ex, ev: Eval, node, recv_node, meth):
             ch = ex._chain(recv_node)
             if ch is not None and ex._chain(a[0]) is not None and isinstance(v.t, (TList, TDict, TSet)):
                 # the container now holds the very object the argument names
-                ex.__dict__.setdefault("_views", []).append((ex._chain(a[0])[0], ch[0], ch[1] + 1))
+                ex.__dict__.setdefault("_views", []).append((ex._chain(a[0])[0], ch[0], ch[1] + 1, ex._event()))
             _store_back(ex, ev, recv_node, mk_list(recv.t, ln + 1, z3.Store(arr, ln, v.z)))
             return V(NONE, z3.BoolVal(True))
         if meth == "pop" and len(a) == 0:
@@ -771,7 +784,7 @@ def do_sorted(ex, ev, node, xs_value=None):
     ev.st.pc.append(z3.ForAll([j_], z3.Implies(z3.And(0 <= j_, j_ < n),
                                                z3.And(0 <= z3.Select(inv.z, j_), z3.Select(inv.z, j_) < n,
                                                       z3.Select(ra, z3.Select(inv.z, j_)) == z3.Select(list_arr(xs), j_))),
-                              patterns=[z3.Select(list_arr(xs), j_)]))
+                              patterns=[z3.Select(list_arr(xs), j_), z3.Select(inv.z, j_)]))
 
     def keyof(elem: V):
         if "key" not in kw:
@@ -783,16 +796,24 @@ def do_sorted(ex, ev, node, xs_value=None):
         if not (isinstance(lam, ast.Lambda) and len(lam.args.args) == 1):
             raise Unsupported("sorted key")
         sub = Eval(ex, ev.st, ev.spec, {**ev.bound, lam.args.args[0].arg: elem}, ev.old, ev.result)
+        # the key is only ever applied to elements of the list: side obligations are guarded by that
+        sub.guard = list(ev.guard) + [z3.And(0 <= a, a < n, 0 <= b, b < n),
+                                      z3.And(0 <= z3.Select(perm.z, a), z3.Select(perm.z, a) < n, 0 <= z3.Select(perm.z, b), z3.Select(perm.z, b) < n),
+                                      z3.Select(ra, a) == z3.Select(list_arr(xs), z3.Select(perm.z, a)),
+                                      z3.Select(ra, b) == z3.Select(list_arr(xs), z3.Select(perm.z, b))]
         return sub.expr(lam.body)
 
     ka, kb = keyof(V(xs.t.elem, z3.Select(ra, a))), keyof(V(xs.t.elem, z3.Select(ra, b)))
     if ka.t not in (INT, REAL):
-        raise Unsupported("sorted key type")
+        ev.st.vars["_perm"] = perm  # composite keys: only 'the result is a permutation' is modelled
+        ev.st.vars["_perm_inv"] = inv
+        return r
     rev = "reverse" in kw and isinstance(kw["reverse"], ast.Constant) and kw["reverse"].value is True
     order = (ka.z >= kb.z) if rev else (ka.z <= kb.z)
     ev.st.pc.append(z3.ForAll([a, b], z3.Implies(z3.And(0 <= a, a < b, b < n), order),
                               patterns=[z3.MultiPattern(z3.Select(ra, a), z3.Select(ra, b))]))
     ev.st.vars["_perm"] = perm
+    ev.st.vars["_perm_inv"] = inv
     return r
 
 
